@@ -153,6 +153,22 @@ func updateConnContext(ctx context.Context, c net.Conn) context.Context {
 	return ctx
 }
 
+// tlsStateHandler sets Request.TLS from the connection metadata when the
+// HTTP server could not determine it itself.
+type tlsStateHandler struct {
+	next http.Handler
+}
+
+func (h tlsStateHandler) ServeHTTP(w http.ResponseWriter, r *http.Request) {
+	if r.TLS == nil {
+		if md, ok := metadata.FromContext(r.Context()); ok && md.ConnectionState.HandshakeComplete {
+			cs := md.ConnectionState
+			r.TLS = &cs
+		}
+	}
+	h.next.ServeHTTP(w, r)
+}
+
 func (server *Server) serveHTTP1() {
 	err := server.HTTPServer.Serve(server.http1ConnChannelListener)
 
@@ -193,6 +209,14 @@ func (server *Server) setupServe() {
 
 	// start HTTP/1.1 server
 	if server.http1ConnChannelListener == nil {
+		// HTTP/1.1 connections reach net/http wrapped in hack.TLSClientHelloConn,
+		// which net/http does not recognise as TLS: tell handlers the truth
+		next := server.HTTPServer.Handler
+		if next == nil {
+			next = http.DefaultServeMux
+		}
+		server.HTTPServer.Handler = tlsStateHandler{next}
+
 		server.http1ConnChannelListener = hack.NewChannelListener(server.ctx)
 		go server.serveHTTP1()
 	}
